@@ -969,7 +969,9 @@ func (a cstreamSrv) Recv() (string, error) {
 	}
 	return m.GetMsg(), nil
 }
-func (a cstreamSrv) Send(p string) error             { return a.s.SendAndClose(&testproto.ClientStreamResponse{Msg: p}) }
+func (a cstreamSrv) Send(p string) error {
+	return a.s.SendAndClose(&testproto.ClientStreamResponse{Msg: p})
+}
 func (a cstreamSrv) SetHeader(md metadata.MD) error  { return a.s.SetHeader(md) }
 func (a cstreamSrv) SendHeader(md metadata.MD) error { return a.s.SendHeader(md) }
 func (a cstreamSrv) SetTrailer(md metadata.MD)       { a.s.SetTrailer(md) }
